@@ -371,8 +371,7 @@ impl<'a> EM<'a> {
         };
         self.rec.ev("view_f64", format!("\"view\":\"{}\",\"to\":{},\"u\":{},\"res\":{}", view, ts_idx(to), unit_idx(u), res), true);
     }
-    /// JD / MJD constructors in the GNSS scales: what they mean is the library's own convention (no statement
-    /// pins it); recorded for "a value in that scale, no panic"
+    /// JD / MJD constructors in the GNSS scales: the (Modified) Julian Date of that scale's own calendar
     pub fn from_view_gnss(&mut self, which: usize, x: f64) {
         self.rec.episode();
         let (ts, r): (TimeScale, Result<Epoch, String>) = match which % 8 {
@@ -386,7 +385,12 @@ impl<'a> EM<'a> {
             _ => (TimeScale::BDT, catch(|| Epoch::from_jde_bdt(x))),
         };
         let ok = r.clone().ok();
-        self.rec.ev("from_view_any", format!("\"ts\":{},\"x\":{},\"res\":{}", ts_idx(ts), jf64(x), jres_epoch(&r)), true);
+        let view = if which % 8 < 4 { "mjd" } else { "jde" };
+        self.rec.ev(
+            "from_view",
+            format!("\"view\":\"{}\",\"ts\":{},\"u\":{},\"x\":{},\"res\":{}", view, ts_idx(ts), unit_idx(Unit::Day), jf64(x), jres_epoch(&r)),
+            true,
+        );
         if let Some(e) = ok {
             self.e = e;
         }
@@ -612,7 +616,8 @@ pub fn c10_numeric(m: &mut EM, rng: &mut Rng, thorough: bool) {
         // TAI, UTC, TT (the scales that count from 1900-01-01); the rest is only required not to panic
         // (SEC in ET/TDB is the plain count past J2000 in that scale - no approximation involved - so it is pinned too;
         // JD/MJD in ET/TDB are documented as approximate and only required not to panic)
-        let must = kind == 2 || (!dynamic && (ts == TimeScale::TAI || ts == TimeScale::UTC || ts == TimeScale::TT));
+        // (JD and MJD in the GNSS scales denote the date of that scale's own calendar: pinned as well - finding F35)
+        let must = kind == 2 || !dynamic;
         let owned = s.clone();
         let r = with_deadline(DEADLINE_S, move || Epoch::from_str(&owned).map_err(|_| ()));
         let res = match &r {
